@@ -16,7 +16,7 @@ import re
 import subprocess
 import sys
 
-from translate import c17_effects
+from translate import c17_effects, c17_numeric
 from vlib import core
 
 TARGETS = ["Props/C17.vo"]
@@ -107,6 +107,25 @@ def inject(text, pos, payload):
     return "\n".join(lines)
 
 
+SHIFTED_ORIGIN_CIF = """data_shifted_origin
+_cell_length_a 5
+_cell_length_b 6
+_cell_length_c 7
+_cell_angle_alpha 80
+_cell_angle_beta 85
+_cell_angle_gamma 95
+loop_
+_symmetry_equiv_pos_as_xyz
+'x,y,z'
+'-x+1/4,-y,-z'
+loop_
+_atom_site_label
+_atom_site_fract_x
+_atom_site_fract_y
+_atom_site_fract_z
+C1 0.10 0.20 0.30
+"""
+
 XCFG_TMPL = """Number of particles = 2
 A = 1.0 Angstrom
 H0(1,1) = 4 A
@@ -190,6 +209,13 @@ def make_cases(ctx):
                 new = list(lines)
                 new[i] = re.sub(r"['\"].*['\"]|\S+,\S+,\S+", lambda m: q + pl + q, lines[i], count=1)
                 add("cif", "\n".join(new), "parse", "symop:%s:%d" % (name, i), payload=pl)
+    # parse / edit the returned objects in place / parse again with a fresh parser: same result, nothing shared
+    for fmt, ds in docs.items():
+        for name, text in ds:
+            add(fmt, text, "twice", "twice:" + name)
+    add("cif", SHIFTED_ORIGIN_CIF, "twice", "twice:shifted-origin")
+    add("cif", SHIFTED_ORIGIN_CIF.replace("-x+1/4,-y,-z", "-x+1/4,-y+1/2,-z+3/4").replace("'x,y,z'", "'x,y,z'\n'x+1/2,y,z'"),
+        "twice", "twice:custom-operators")
     # CIF without a symmetry loop: the space-group identifier ends up in the error message - it must be quoted, not used
     # as a format template (replacement fields are attribute/index lookups on live objects)
     for k, pl in enumerate(FORMAT_FIELD_PAYLOADS):
@@ -378,6 +404,16 @@ def evaluate(ctx, st, results):
             for k in ("cwd_changed", "scratch_changed", "env_changed", "classes_changed", "sys_path_changed", "module_attrs_changed"):
                 if d.get(k):
                     problems.append("%s: %s" % (k, d[k]))
+            if d.get("memo_grew"):
+                problems.append("memo_changed: a memo table of the package grew while parsing: %s" % d["memo_grew"][:3])
+            tw = o.get("twice")
+            if c["mode"] == "twice" and o["outcome"] == "ok" and isinstance(tw, dict):
+                if tw["shared"]:
+                    problems.append("state_changed: objects returned by a second parse of the same text ARE objects returned by the "
+                                    "first parse (kept in process-wide state): %s" % tw["shared"][:3])
+                if not tw["same"]:
+                    problems.append("state_changed: after the caller edited the arrays returned by the first parse, a fresh parser "
+                                    "gives a different result for the same text: %s" % tw["diff"])
             if c["kind"].startswith("format-field:"):
                 det = o.get("detail", "")
                 if "QZXstrQZX" in det or "<class" in det or (c["payload"].startswith("P{0[0]}") and "{0[0]}" not in det and "QZX" in det):
@@ -417,6 +453,138 @@ def evaluate(ctx, st, results):
                          "unexplained_cases": nviol})
 
 
+# ---------------------------------------------------------------- numeric fields of symmetry operators
+NUMCH = "0123456789./+-eE"
+JUNK = "*;_)(!@#%&=~^|:?<>[]{}\\\"'$`jJqQwW\t"
+BASE_TERMS = ["1/2", "+1/4", "-3/4", "0.5", "1/3+1/6", "2/3", "1e-1", ".25", "1/2.", "12/5", "3/4.5", "-1/6-1/3", "1.5e+1/30"]
+
+NUM_PRELUDE = """From Coq Require Import NArith List Bool.
+From DS Require Import Model.C17_Regex.
+Import ListNotations.
+Open Scope N_scope.
+"""
+
+
+def spec_value(t):
+    """value of a string the reference recogniser accepts (independent of the implementation: Decimal arithmetic)"""
+    from decimal import Decimal
+    terms, cur = [], ""
+    for i, ch in enumerate(t):
+        if ch in "+-" and cur and cur[-1] not in "eE":
+            terms.append(cur)
+            cur = ch
+        else:
+            cur += ch
+    if cur:
+        terms.append(cur)
+    tot = Decimal(0)
+    for term in terms:
+        num, _, den = term.partition("/")
+        tot += Decimal(num) / Decimal(den) if den else Decimal(num)
+    return float(tot)
+
+
+def numeric_strings(ctx):
+    out = set(BASE_TERMS) | {""}
+    chars = JUNK + NUMCH
+    for b in BASE_TERMS:
+        for i in range(len(b) + 1):
+            for ch in chars:
+                out.add(b[:i] + ch + b[i:])              # insertion, also after a denominator and between digits
+        for i in range(len(b)):
+            for ch in chars:
+                out.add(b[:i] + ch + b[i + 1:])          # substitution
+            out.add(b[:i] + b[i + 1:])                   # deletion
+    n = 4000 if ctx.tier == "thorough" else 600
+    for _ in range(n):
+        k = ctx.rng.randint(1, 9)
+        out.add("".join(ctx.rng.choice(NUMCH + "*") if ctx.rng.random() < 0.9 else ctx.rng.choice(JUNK) for _ in range(k)))
+    # the splitting of an operator at [+-]?[xyz] and at commas/blanks is not part of the numeric reader
+    return sorted((t for t in out if not set(t) & set("xyzXYZ, \n\r") and all(ord(c) < 128 for c in t)),
+                  key=lambda t: (any(ord(c) < 32 for c in t), len(t), t))
+
+
+def numeric_check(ctx):
+    try:
+        a = c17_numeric.analyse()
+    except core.TranslatorRefusal as e:
+        ctx.log("numeric translator refused (%s): finder runs against the reference recogniser only" % e)
+        a = None
+    try:
+        from diffpy.structure.parsers.p_cif import getSymOp
+        from diffpy.structure.parsers import getParser
+        from diffpy.structure.structureerrors import StructureFormatError
+    except Exception as e:
+        ctx.obligation("harness:getSymOp-importable", False, str(e))
+        return
+    strings = numeric_strings(ctx)
+    rxtext = a["translation"] if a else "RNone"
+    lst = "[" + "; ".join("[" + "; ".join(str(ord(c)) for c in t) + "]" for t in strings) + "]"
+    rc, out = ctx.coq_eval("c17_numeric_cases", NUM_PRELUDE + "Definition case_rx : rx := %s.\n" % rxtext +
+                           "Eval vm_compute in (map (fun s => (rmatch case_rx s, is_number_sum s)) %s).\n" % lst, timeout=600)
+    pairs = re.findall(r"\(\s*(true|false)\s*,\s*(true|false)\s*\)", out)
+    if rc != 0 or len(pairs) != len(strings):
+        ctx.obligation("correspondence:symop-number-pattern", False, "model evaluation failed: " + out[-300:])
+        return
+    mism, seen = [], set()
+    ncif = 0
+    for t, (m, sp) in zip(strings, pairs):
+        model_acc, spec_acc = m == "true", sp == "true"
+        op = t + "+x,y,z"
+        try:
+            o = getSymOp(op)
+            impl_acc, val = True, float(o.t[0])
+        except ValueError:
+            impl_acc, val = False, None
+        except Exception as e:       # any other escape: not a number either, but not the documented error
+            impl_acc, val = False, None
+            if a is not None and model_acc:
+                mism.append("getSymOp(%r) raised %s" % (op, type(e).__name__))
+        ctx.count(("symop-term", t))
+        want = None
+        if spec_acc:
+            try:
+                want = spec_value(t)
+            except Exception:          # zero denominator: matches the pattern, is not a number; the reader must refuse it
+                spec_acc = model_acc = False
+        if a is not None and impl_acc != model_acc:
+            mism.append("getSymOp(%r): implementation %s, regenerated pattern %s" % (op, "accepts" if impl_acc else "rejects",
+                                                                                  "accepts" if model_acc else "rejects"))
+        key = None
+        if impl_acc and not spec_acc:
+            key, what = "symop-number:junk-accepted", ("symmetry operator %r: the translation term %r is not a number (sum of signed "
+                                                       "decimals/fractions) but is read as %r instead of a format error" % (op, t, val))
+        elif spec_acc and not impl_acc:
+            key, what = "symop-number:number-refused", "symmetry operator %r: the translation term %r is a number but is refused" % (op, t)
+        elif impl_acc and spec_acc:
+            if want is not None and abs(want) < 1e6:
+                dlt = abs((val - want % 1.0 + 0.5) % 1.0 - 0.5)
+                if dlt > 1e-9:
+                    key, what = "symop-number:value", "symmetry operator %r: translation read as %r, the text says %r (mod 1)" % (op, val, want % 1.0)
+        if key and key not in seen:
+            seen.add(key)
+            ctx.violation(what, {"operator": op, "term": t, "via": "getSymOp"}, key=key)
+        # the same through the parser, for a sample of non-numbers
+        if not spec_acc and ncif < (600 if ctx.tier == "thorough" else 120) and not set(t) & set("'\"#\t;_$[]{}\\"):
+            ncif += 1
+            text = SHIFTED_ORIGIN_CIF.replace("-x+1/4,-y,-z", "-x+%s,-y,-z" % t if t[:1] not in "+-" else "-x%s,-y,-z" % t)
+            try:
+                getParser("cif").parse(text)
+                k2 = "symop-number:junk-accepted-by-parser"
+                if k2 not in seen:
+                    seen.add(k2)
+                    ctx.violation("CIF with the operator '-x+%s,-y,-z' parses although %r is not a number" % (t, t),
+                                  {"fmt": "cif", "mode": "parse", "text": text}, key=k2)
+            except StructureFormatError:
+                pass
+            except Exception:
+                pass                 # other escapes are C13's subject
+    if a is not None:
+        ctx.obligation("correspondence:symop-number-pattern", not mism, "; ".join(mism[:3]))
+    ctx.coverage.update({"symop_terms_checked": len(strings), "symop_terms_through_parser": ncif})
+    ctx.sample({"symop_terms": strings[5:9], "model_accepts": [p[0] for p in pairs[5:9]], "spec_accepts": [p[1] for p in pairs[5:9]]})
+
+
 def run(ctx):
     ctx.trusted += ["Coq 8.16.1 kernel + vm_compute (no native_compute)",
                     "translate/c17_effects.py: name-based call resolution (every method of a name for unknown receivers, IMPLICIT/DYN "
@@ -432,6 +600,12 @@ def run(ctx):
                         "Atom/Structure/Lattice/parser classes; lazily built caches inside the package are not compared"]
     with core.BuildLock():
         ok = ctx.regen("c17_effects", c17_effects.generate)
+        if not ctx.regen("c17_numeric", c17_numeric.generate):
+            # the numeric reader no longer has the recognised shape: a pattern that accepts anything makes the
+            # pattern theorems fail honestly instead of reusing a stale translation
+            core.write_if_changed(os.path.join(core.COQ, "Gen", "C17_SymopRegex.v"),
+                                  "From DS Require Import Model.C17_Regex.\nDefinition gen_rx_translation : rx := RStar RAny.\n"
+                                  "Definition gen_rx_term : rx := RStar RAny.\n")
         if ok:
             ctx.coq(TARGETS, theorems_in={"Props/C17"})
     try:
@@ -457,6 +631,7 @@ def run(ctx):
     with cf.ThreadPoolExecutor(min(core.NPROC, 16)) as ex:
         results = list(ex.map(run_child, jobs))
     evaluate(ctx, st, results)
+    numeric_check(ctx)
     refl = [s for s in a["sinks"] if s["kind"] in ("KSetattr", "KGetattr", "KFormat")
             and (s["args"][0] if s["kind"] == "KFormat" else (s["args"][1] if len(s["args"]) > 1 else 3)) == c17_effects.TEXT]
     ctx.coverage.update({
